@@ -1,1 +1,268 @@
-import Simfile.Model.Objects
+/-
+C03: the loading rules, for ARBITRARY parameter lists.
+Duplicate keys: `List.eraseDups` (core) keeps the first occurrence of each element
+(`List.eraseDups_cons : (a :: as).eraseDups = a :: (as.filter (· != a)).eraseDups`).
+-/
+import Simfile.Model.Load
+import Simfile.Lemmas.LoadRules
+namespace Simfile.C03
+open Simfile Simfile.O
+
+example : [1, 2, 1, 3, 2].eraseDups = [1, 2, 3] := by decide
+
+/-- the parameters that become simfile properties / charts of an SM simfile, in order -/
+def propParams (ps : List Param) : List Param := ps.filter fun p => upper p.key ≠ kNOTES
+def chartParams (ps : List Param) : List Param := ps.filter fun p => upper p.key = kNOTES
+
+theorem propParams_eq (ps : List Param) : propParams ps = ps.filter fun p => !isNotes p := by
+  unfold propParams
+  apply List.filter_congr
+  intro p _
+  simp [isNotes]
+
+theorem chartParams_eq (ps : List Param) : chartParams ps = ps.filter isNotes := rfl
+
+/-- 8. the keys are the upper-cased keys of the non-NOTES parameters, first occurrences, in order -/
+theorem sm_keys (ps : List Param) (s : SMSimfile) (h : loadSM ps = .ok s) :
+    s.props.keys = ((propParams ps).map fun p => upper p.key).eraseDups ∧ s.props.WF := by
+  obtain ⟨_, rfl⟩ := loadSM_ok ps s h
+  rw [propParams_eq]
+  exact ⟨keys_dictOf _, WF_dictOf _⟩
+
+/-- 9. the value under a key is the loaded value of the LAST parameter with that upper-cased key
+(`none` on the right-hand side iff there is no such parameter) -/
+theorem sm_value (ps : List Param) (s : SMSimfile) (h : loadSM ps = .ok s) (k : Str) (hk : k ≠ kNOTES) :
+    s.props.get? k = (ps.reverse.find? fun p => upper p.key == k).map (loadedValue k) := by
+  obtain ⟨_, rfl⟩ := loadSM_ok ps s h
+  simp only
+  rw [get?_dictOf, find?_reverse_filter_nonNotes ps k hk]
+
+/-- 9, explicit form: `p` followed only by parameters with other keys -/
+theorem sm_value_last (ps : List Param) (s : SMSimfile) (h : loadSM ps = .ok s)
+    (l1 l2 : List Param) (p : Param) (hps : ps = l1 ++ p :: l2) (hp : upper p.key ≠ kNOTES)
+    (hl : ∀ q ∈ l2, upper q.key ≠ upper p.key) :
+    s.props.get? (upper p.key) = some (loadedValue (upper p.key) p) := by
+  rw [sm_value ps s h _ hp, hps,
+    find?_reverse_last l1 l2 p _ (by simp) (fun q hq => by simpa using hl q hq)]
+  rfl
+
+/-- 10a. the only error of the SM loader: a NOTES parameter with fewer than six value components -/
+theorem sm_charts_error (ps : List Param) :
+    loadSM ps = .error .valueError ↔
+      ∃ p ∈ ps, upper p.key = kNOTES ∧ p.comps.tail.length < T.smChartProperties.length := by
+  have hany : ps.any badChart = true ↔
+      ∃ p ∈ ps, upper p.key = kNOTES ∧ p.comps.tail.length < T.smChartProperties.length := by
+    rw [List.any_eq_true]
+    constructor
+    · rintro ⟨p, hp, hb⟩
+      simp only [badChart, isNotes, Bool.and_eq_true, decide_eq_true_eq] at hb
+      exact ⟨p, hp, hb⟩
+    · rintro ⟨p, hp, hb⟩
+      exact ⟨p, hp, by simp only [badChart, isNotes, Bool.and_eq_true, decide_eq_true_eq]; exact hb⟩
+  rw [← hany]
+  rcases loadSM_cases ps with ⟨hb, he⟩ | ⟨hb, s, hs⟩
+  · exact ⟨fun _ => hb, fun _ => he⟩
+  · rw [hs, hb]
+    exact ⟨fun e => (by cases e), fun e => (by cases e)⟩
+
+theorem sm_error_or_ok (ps : List Param) : loadSM ps = .error .valueError ∨ ∃ s, loadSM ps = .ok s := by
+  rcases loadSM_cases ps with ⟨_, he⟩ | ⟨_, hs⟩
+  · exact Or.inl he
+  · exact Or.inr hs
+
+/-- 10b. otherwise the charts are the `smChartFromMsd` images of the NOTES parameters, in order -/
+theorem sm_charts (ps : List Param) (s : SMSimfile) (h : loadSM ps = .ok s) :
+    s.charts.map Except.ok = (chartParams ps).map fun p => smChartFromMsd p.comps.tail := by
+  obtain ⟨hb, rfl⟩ := loadSM_ok ps s h
+  rw [chartParams_eq]
+  simp only [List.map_map]
+  apply List.map_congr_left
+  intro p hp
+  have hp' := List.mem_filter.mp hp
+  have : badChart p = false := by
+    rw [List.any_eq_false] at hb
+    simpa using hb p hp'.1
+  simp only [badChart, hp'.2, Bool.true_and, decide_eq_false_iff_not] at this
+  simp only [Function.comp, smChartFromMsd_eq, this, if_false]
+
+/-- the properties of a loaded SM simfile are the dictionary of the non-NOTES parameters -/
+theorem sm_props (ps : List Param) (s : SMSimfile) (h : loadSM ps = .ok s) :
+    s.props = dictOf (propParams ps) := by
+  obtain ⟨_, rfl⟩ := loadSM_ok ps s h
+  rw [propParams_eq]
+
+/-! ### the dictionary built from a run of parameters (`O.dictOf`: fold of `Dict.set` with the upper-cased
+key and `loadedValue`): the same key/value rules wherever it is used -/
+
+theorem dictOf_def (l : List Param) :
+    dictOf l = l.foldl (fun d p => Dict.set d (upper p.key) (loadedValue (upper p.key) p)) ([] : Dict) := by
+  unfold dictOf setAll
+  rw [List.foldl_map]; rfl
+
+theorem dictOf_keys (l : List Param) :
+    (dictOf l).keys = (l.map fun p => upper p.key).eraseDups ∧ (dictOf l).WF :=
+  ⟨keys_dictOf l, WF_dictOf l⟩
+
+theorem dictOf_value (l : List Param) (k : Str) :
+    (dictOf l).get? k = (l.reverse.find? fun p => upper p.key == k).map (loadedValue k) :=
+  get?_dictOf l k
+
+/-! ### 11. SSC -/
+
+/-- every parameter list splits, in exactly one way (`ssc_props`/`ssc_charts` hold for EVERY such
+splitting), into a NOTEDATA-free prefix followed by blocks made of a NOTEDATA parameter and a
+NOTEDATA-free run -/
+theorem ssc_decomp (ps : List Param) :
+    ∃ pre nds gs, nds.length = gs.length ∧ ps = pre ++ (List.zipWith (· :: ·) nds gs).flatten ∧
+      (∀ p ∈ pre, upper p.key ≠ kNOTEDATA) ∧ (∀ p ∈ nds, upper p.key = kNOTEDATA) ∧
+      (∀ g ∈ gs, ∀ p ∈ g, upper p.key ≠ kNOTEDATA) := by
+  obtain ⟨nds, hlen, hnd, hps⟩ := segs_decomp ps
+  refine ⟨(segs ps).1, nds, (segs ps).2, hlen, hps, ?_, ?_, ?_⟩
+  · intro p hp; simpa [isND] using segs_fst_noND ps p hp
+  · intro p hp; simpa [isND] using hnd p hp
+  · intro g hg p hp; simpa [isND] using segs_snd_noND ps g hg p hp
+
+section
+variable (pre nds : List Param) (gs : List (List Param)) (hlen : nds.length = gs.length)
+  (hpre : ∀ p ∈ pre, upper p.key ≠ kNOTEDATA) (hnd : ∀ p ∈ nds, upper p.key = kNOTEDATA)
+  (hg : ∀ g ∈ gs, ∀ p ∈ g, upper p.key ≠ kNOTEDATA)
+include hlen hpre hnd hg
+
+theorem segs_of_decomp : segs (pre ++ (List.zipWith (· :: ·) nds gs).flatten) = (pre, gs) :=
+  segs_unique pre nds gs hlen (fun p hp => by simpa [isND] using hpre p hp)
+    (fun p hp => by simpa [isND] using hnd p hp) (fun g hg' p hp => by simpa [isND] using hg g hg' p hp)
+
+/-- the parameters before the first NOTEDATA are the simfile properties -/
+theorem ssc_props :
+    (loadSSC (pre ++ (List.zipWith (· :: ·) nds gs).flatten)).props = dictOf pre := by
+  rw [loadSSC_closed, segs_of_decomp pre nds gs hlen hpre hnd hg]
+
+/-- each NOTEDATA parameter opens a chart, made of the parameters up to the next NOTEDATA -/
+theorem ssc_charts :
+    (loadSSC (pre ++ (List.zipWith (· :: ·) nds gs).flatten)).charts = gs.map fun g => ⟨dictOf g⟩ := by
+  rw [loadSSC_closed, segs_of_decomp pre nds gs hlen hpre hnd hg]
+
+end
+
+/-! ### 12. the format rule and the entry point -/
+
+theorem format (name : Option Str) (ps : List Param) :
+    formatOf name ps =
+      match name with
+      | none => firstKeyIsVersion ps
+      | some n =>
+        let suffix := (rpartition '.' (lower n)).2.2
+        if suffix = ['s','s','c'] then true else if suffix = ['s','m'] then false
+        else firstKeyIsVersion ps := by
+  cases name with
+  | none => rfl
+  | some n =>
+    by_cases h1 : (rpartition '.' (lower n)).2.2 = ['s','s','c']
+    · simp [formatOf, suffixRule, h1]
+    · by_cases h2 : (rpartition '.' (lower n)).2.2 = ['s','m']
+      · simp [formatOf, suffixRule, h2]
+      · simp [formatOf, suffixRule, h1, h2]
+
+/-- `(rpartition '.' (lower n)).2.2` is the lower-cased text after the LAST '.' of the name … -/
+theorem suffix_after_last_dot (a b : Str) (hb : '.' ∉ b) :
+    (rpartition '.' (lower (a ++ '.' :: b))).2.2 = lower b := by
+  rw [lower_append, lower_cons, show lowerChar '.' = '.' from by decide,
+    rpartition_last '.' (lower a) (lower b) (dot_not_mem_lower b hb)]
+
+/-- … and the whole lower-cased name when it has no '.' -/
+theorem suffix_no_dot (n : Str) (h : '.' ∉ n) : (rpartition '.' (lower n)).2.2 = lower n := by
+  rw [rpartition_of_not_mem '.' (lower n) (dot_not_mem_lower n h)]
+
+theorem loadAs_lenient (b : Bool) (ps : List Param) :
+    loadAs b ⟨ps, false⟩ = if b then .ok (.ssc (loadSSC ps)) else (loadSM ps).map .sm := by
+  unfold loadAs
+  cases b with
+  | true => rfl
+  | false =>
+    simp only [Bool.false_eq_true, if_false]
+    cases loadSM ps <;> rfl
+
+/-- without the stray-text error the result depends on the parameters (and the format) only -/
+theorem lenient_same (name : Option Str) (ps : List Param) :
+    load name ⟨ps, false⟩ =
+      if formatOf name ps then .ok (.ssc (loadSSC ps)) else (loadSM ps).map .sm := by
+  rw [← loadAs_lenient]
+  unfold load formatOf
+  cases name.bind suffixRule with
+  | some b => rfl
+  | none => simp
+
+/-- with the stray-text error and the SSC format the result is the parser's error -/
+theorem strict_error (name : Option Str) (ps : List Param) (h : formatOf name ps = true) :
+    load name ⟨ps, true⟩ = .error .msdParserError := by
+  unfold load formatOf at *
+  cases hn : name.bind suffixRule with
+  | some b =>
+    rw [hn] at h; simp only at h; subst h; rfl
+  | none =>
+    rw [hn] at h; simp only at h
+    simp only [h]
+    split
+    · rfl
+    · rfl
+
+/-- with the stray-text error and the SM format, the loader's own error comes first -/
+theorem strict_error_sm (name : Option Str) (ps : List Param) (h : formatOf name ps = false) :
+    (loadSM ps = .error .valueError → load name ⟨ps, true⟩ = .error .valueError) ∧
+    (∀ s, loadSM ps = .ok s → load name ⟨ps, true⟩ = .error .msdParserError) := by
+  unfold load formatOf at *
+  cases hn : name.bind suffixRule with
+  | some b =>
+    rw [hn] at h; simp only at h; subst h
+    simp only [loadAs, Bool.false_eq_true, if_false, if_true]
+    constructor
+    · intro he; rw [he]; rfl
+    · intro s hs; rw [hs]; rfl
+  | none =>
+    rw [hn] at h; simp only at h
+    simp only [h]
+    cases ps with
+    | nil =>
+      constructor
+      · intro he; cases he
+      · intro s _; simp
+    | cons p ps =>
+      simp only [List.isEmpty_cons, Bool.false_eq_true, false_and, if_false, loadAs, if_true]
+      constructor
+      · intro he; rw [he]; rfl
+      · intro s hs; rw [hs]; rfl
+
+/-! ### examples -/
+
+/-- lower-case and duplicate keys, a key-only parameter, a multi-value key, a chart with extradata -/
+def exPs : List Param :=
+  [⟨["title".toList, "a".toList]⟩, ⟨["Artist".toList]⟩, ⟨["TITLE".toList, "b".toList, "c".toList]⟩,
+   ⟨["notes".toList, "s".toList, " d ".toList, "x".toList, "1".toList, "r".toList, "\n00\n".toList,
+     "extra".toList]⟩,
+   ⟨["displaybpm".toList, "1".toList, "2".toList]⟩]
+
+example : loadSM exPs = .ok
+    ⟨[("TITLE".toList, some "b".toList), ("ARTIST".toList, none), ("DISPLAYBPM".toList, some "1:2".toList)],
+     [⟨[("STEPSTYPE".toList, some "s".toList), ("DESCRIPTION".toList, some "d".toList),
+        ("DIFFICULTY".toList, some "x".toList), ("METER".toList, some "1".toList),
+        ("RADARVALUES".toList, some "r".toList), ("NOTES".toList, some "00".toList)],
+       some ["extra".toList]⟩]⟩ := by decide +kernel
+
+example : loadSM [⟨["notes".toList, "a".toList, "b".toList]⟩] = .error .valueError := by decide +kernel
+
+def exSSCPs : List Param :=
+  [⟨["version".toList, "0.83".toList]⟩, ⟨["title".toList, "a".toList]⟩, ⟨["NoteData".toList, [], "x".toList]⟩,
+   ⟨["stepstype".toList, "x".toList]⟩, ⟨["notes".toList, "0".toList]⟩, ⟨["credit".toList, "c".toList]⟩,
+   ⟨["NOTEDATA".toList]⟩, ⟨["NOTES2".toList, "1".toList]⟩, ⟨["NOTES2".toList, "2".toList]⟩]
+
+example : loadSSC exSSCPs =
+    ⟨[("VERSION".toList, some "0.83".toList), ("TITLE".toList, some "a".toList)],
+     [⟨[("STEPSTYPE".toList, some "x".toList), ("NOTES".toList, some "0".toList),
+        ("CREDIT".toList, some "c".toList)]⟩,
+      ⟨[("NOTES2".toList, some "2".toList)]⟩]⟩ := by decide +kernel
+
+example : formatOf (some "Song.A.SsC".toList) [] = true := by decide +kernel
+example : formatOf (some "song.txt".toList) exSSCPs = true := by decide +kernel
+example : formatOf none exPs = false := by decide +kernel
+
+end Simfile.C03
